@@ -19,6 +19,7 @@ RULE = ('each case = 60 (quick) / 120 (thorough) constructions drawn from the cr
         'and a sibling. Non-trivial = all five symbol classes constructed and at least 5 type updates observed by at '
         'least one attached symbol each; distinct = hash of constructions and history log.')
 CASES = {'quick': 640, 'thorough': 6000}
+THOROUGH_VALIDATED = True   # full thorough tier ran to completion with exit 0 on the unchanged tree
 MIN_NONTRIVIAL = {'quick': 400, 'thorough': 4000}
 ANCHORS = ['loki/expression/symbols.py']
 REQUIRED_REACH = ['__new__', '_get_type_from_scope', '_lookup_type', 'clone', 'rescope']
